@@ -60,7 +60,10 @@ func Merge[T any](out chan<- T, in ...<-chan T) {
 		}
 		chosen, item, ok := reflect.Select(selectCases)
 		if ok {
-			out <- item.Interface().(T)
+			// Comma-ok: a nil interface value received from an input (T an interface type) has no
+			// dynamic type to assert on; it is forwarded as the nil T it is.
+			v, _ := item.Interface().(T)
+			out <- v
 		} else {
 			selectCases = xslices.RemoveUnordered(selectCases, chosen, 1)
 		}
